@@ -174,6 +174,7 @@ func main() {
 	r.Require("c04-private-keys-offered-as-public-account-keys", 2)
 	r.Require("c04-images-scanned", 500)
 	r.Require("c04-lock-requests-during-a-root-manager-operation", 3)
+	r.Require("c04-unlocks-raced-by-an-importer", 10)
 	r.Require("c04-writes-scanned", 5000)
 	r.Require("c04-secret-patterns", 3000)
 	r.Require("c04-conversions-checked", 5)
